@@ -171,7 +171,7 @@ Proof.
   match goal with |- context [emit s1 ?p] =>
     match goal with |- context [on_packet_sent _ ?hd] =>
       pose proof (frame_emit_sent s s1 p hd E) as F end end.
-  destruct (seq_gt _ _); exact F.
+  destruct (seq_gt _ _); try destruct (seq_gt _ _); exact F.
 Qed.
 
 Lemma on_rto_reactions_frame : forall (s s1 : vsock), on_rto_reactions cci s = Some s1 -> frame s s1.
@@ -420,7 +420,7 @@ Lemma process_all_incoming_messages_frame : forall (s : vsock),
 Proof.
   intros s. unfold process_all_incoming_messages.
   apply step_frame_sbind; [apply recv_loop_frame|].
-  intros s1 [r early]. destruct early; [exact (frame_refl s1)|].
+  intros s1 [r early].
   apply step_frame_sbind.
   - unfold restart_remote_inactivity_timer.
     repeat break_match; cbn [step_frame]; exact (frame_refl s1).
